@@ -38,9 +38,18 @@ Open Scope Z_scope.
 Record txn : Type := mkT { tid : Z; tins : list Z; touts : list Z }.
 Record verdict : Type := mkV { v_wf : bool; v_blk : bool; v_soft : bool; v_unspent : bool }.
 
+(* the code base has two entry points for user submissions:
+     Visor.InjectUserTransaction            (daemon.InjectTransaction, no broadcast)
+     Visor.InjectUserTransactionTx inside Visor.WithUpdateTx
+                                            (daemon.InjectBroadcastTransaction, the default of
+                                             POST /api/v1/injectTransaction)
+   The admission rule (user, then hard + soft under params.UserVerifyTxn) is the
+   same for both; the operation records which one was driven. *)
+Inductive user_entry := ViaInjectUserTransaction | ViaInjectUserTransactionTx.
+
 Inductive op : Type :=
 | InjectForeign (t : txn) (v : verdict)
-| InjectUser (t : txn) (user_ok : bool) (v : verdict)
+| InjectUser (ep : user_entry) (t : txn) (user_ok : bool) (v : verdict)
 | ExecBlock (hdr_ok : bool) (txs : list (txn * verdict))
 | Refresh (vs : list (Z * verdict))
 | RemoveInvalid (vs : list (Z * verdict)).
@@ -157,7 +166,7 @@ Definition remove_invalid (s : state) (vs : list (Z * verdict)) : state * out :=
 Definition step (s : state) (o : op) : state * out :=
   match o with
   | InjectForeign t v => inject s t v
-  | InjectUser t u v => inject_user s t u v
+  | InjectUser ep t u v => inject_user s t u v
   | ExecBlock h txs => exec_block s h txs
   | Refresh vs => refresh s vs
   | RemoveInvalid vs => remove_invalid s vs
@@ -205,7 +214,7 @@ Fixpoint eqb_pool (p : list entry) (q : list (Z * bool)) : bool :=
 (* the node's "inputs unspent" answers agree with the model's unspent set *)
 Definition unspent_agrees (U : list Z) (o : op) : bool :=
   match o with
-  | InjectForeign t v | InjectUser t _ v => Bool.eqb (inputs_unspent U t) (v_unspent v)
+  | InjectForeign t v | InjectUser _ t _ v => Bool.eqb (inputs_unspent U t) (v_unspent v)
   | ExecBlock _ txs => forallb (fun tv => Bool.eqb (inputs_unspent U (fst tv)) (v_unspent (snd tv))) txs
   | _ => true
   end.
@@ -251,7 +260,7 @@ Definition step_prop (before : list (Z * bool)) (st : obs_step) : bool :=
         && eqb_option Bool.eqb (oflag after (tid t)) (Some (v_soft v))
         && eqb_opool (without (tid t) after) (without (tid t) before)
       else eqb_icls c IHard && negb k && eqb_opool after before
-  | InjectUser t u v, OInject k c =>
+  | InjectUser ep t u v, OInject k c =>
       if u && vhard v && v_soft v then
         eqb_icls c IOk
         && Bool.eqb k (existsb (fun x => fst x =? tid t) before)
